@@ -270,6 +270,14 @@ impl Prop for C19 {
     fn check(&self, sc: &Scenario, cov: &mut Cov) -> Vec<Violation> {
         let o = run_low(sc, true);
         cov.note_low(&o);
+        if let Verdict::Error(msg) = &o.verdict {
+            // every scenario of this campaign is a valid configuration (tolerances, knobs and step
+            // options inside their documented ranges): the protocol's first clause - one callback
+            // at x0 before stepping - is due. A solver that refuses the configuration never makes it.
+            if o.n_cb == 0 {
+                return vec![viol(P, "no_initial_callback", format!("the solver returned Err({msg}) for a valid configuration without ever calling SolOut"))];
+            }
+        }
         if o.verdict != Verdict::Returned {
             // hang / panic / config error: owned by C04, not a protocol verdict
             cov.blocked += 1;
